@@ -221,6 +221,20 @@ def h_dependent_array(E, kind):
     return 'ok'
 
 
+def h_constant_override(E, name):
+    """a user constant that re-uses the name of a default constant (warnings suppressed) has the USER's value in every sample, and dependents see it"""
+    from mitxgraders import FormulaGrader, DependentSampler
+    c = E.real('user_value', 5, 6)
+    SX = make_sym_sampler(E, 'x', 1, 2)
+    g = FormulaGrader(answers='d', variables=['x', 'd'], user_constants={name: c}, suppress_warnings=True,
+                      sample_from={'x': SX(), 'd': DependentSampler(formula='%s*x' % name)}, samples=2)
+    var_samples, _ = g.gen_var_and_func_samples('d', {}, ['d'])
+    for sample in var_samples:
+        E.check('user-constant-overrides-default-of-the-same-name', near_eq(sample[name], c))
+        E.check('dependent-consistent', near_eq(sample['d'], c * sample['x']))
+    return 'ok'
+
+
 def h_dependent_suffix(E):
     """dependent formulas are evaluated with the grader's OWN suffix table: with metric_suffixes on, `2k*x` is a valid dependency and equals 2000 x"""
     from mitxgraders import FormulaGrader, DependentSampler
@@ -306,6 +320,8 @@ def harnesses(tier):
     for kind in ('scaled-vector', 'matrix-literal', 'sum-of-vectors'):
         add(h_dependent_array, 'dependent_array', dict(kind=kind), 'symbolic entries, 3 declaration orders (array literals with symbolic entries are followed by the concrete replay only)',
             expect_inconclusive=(kind != 'scaled-vector'))
+    for name in ('e', 'pi'):
+        add(h_constant_override, 'constant_override', dict(name=name), 'symbolic user value')
     add(h_dependent_suffix, 'dependent_suffix', {}, 'symbolic draws, metric and percent suffixes inside dependent formulas')
     add(h_numbered_base_also_variable, 'numbered_base_also_variable', {}, 'symbolic draws')
     for i in range(len(BAD_NUMBERED)):
